@@ -71,6 +71,8 @@ fn expected(key: &str, pb: &ProgressBar, ticks: u64, finished: bool) -> Option<V
 #[derive(Clone, Default)]
 struct Probe {
     log: Arc<Mutex<Vec<String>>>,
+    /// the tracker of the style installed later writes `V` instead of `W`
+    second: bool,
 }
 
 impl ProgressTracker for Probe {
@@ -84,7 +86,7 @@ impl ProgressTracker for Probe {
         self.log.lock().unwrap().push(format!("reset pos={} finished={}", s.pos(), s.is_finished()));
     }
     fn write(&self, s: &ProgressState, w: &mut dyn std::fmt::Write) {
-        let _ = write!(w, "W pos={} len={:?} fin={} el={:?} eta={:?} ps={:?}", s.pos(), s.len(), s.is_finished(), s.elapsed(), s.eta(), s.per_sec());
+        let _ = write!(w, "{} pos={} len={:?} fin={} el={:?} eta={:?} ps={:?}", if self.second { 'V' } else { 'W' }, s.pos(), s.len(), s.is_finished(), s.elapsed(), s.eta(), s.per_sec());
     }
 }
 
@@ -263,7 +265,7 @@ pub fn run(tier: Tier, shard: Shard, stats: &mut Stats) {
     }
     // custom keys: receive the current state when written, ticked and reset together with the bar;
     // every frame painted along the way shows the state and the elapsed time of that instant
-    let nops = 11u8;
+    let nops = 12u8;
     let mut seqs: Vec<Vec<u8>> = vec![vec![]];
     let depth = if tier == Tier::Quick { 4 } else { 7 };
     for _ in 0..depth {
@@ -295,7 +297,7 @@ pub fn run(tier: Tier, shard: Shard, stats: &mut Stats) {
         stats.evaluations += 1;
         stats.transitions += 1;
         clock::reset();
-        let names = ["tick", "inc(2)", "set_position(7)", "set_length(9)", "reset", "finish", "set_message", "suspend(closure taking 2 s)", "println", "set_draw_target(visible)", "the next flush of the terminal fails once"];
+        let names = ["tick", "inc(2)", "set_position(7)", "set_length(9)", "reset", "finish", "set_message", "suspend(closure taking 2 s)", "println", "set_draw_target(visible)", "the next flush of the terminal fails once", "set_style(same template, key k registered with another tracker)"];
         let hist: Vec<String> = std::iter::once(format!("template [{{k}}] {{elapsed_precise}}{}", if start_hidden { ", bar created with a hidden target" } else { "" })).chain(seq.iter().map(|&o| names[o as usize].to_string())).collect();
         let probe = Probe::default();
         let log = probe.log.clone();
@@ -303,7 +305,8 @@ pub fn run(tier: Tier, shard: Shard, stats: &mut Stats) {
         let r = catch(|| {
             let style = ProgressStyle::with_template("[{k}] {elapsed_precise}").unwrap().with_key("k", probe.clone());
             let pb = if start_hidden { indicatif::ProgressBar::with_draw_target(Some(10), indicatif::ProgressDrawTarget::hidden()).with_style(style) } else { bar_on(&catcher, Some(10), style) };
-            let want_now = |pb: &indicatif::ProgressBar| format!("[W pos={} len={:?} fin={} el={:?} eta={:?} ps={:?}] {}", pb.position(), pb.length(), pb.is_finished(), pb.elapsed(), pb.eta(), pb.per_sec(), indicatif::FormattedDuration(pb.elapsed()));
+            let restyled = std::cell::Cell::new(false);
+            let want_now = |pb: &indicatif::ProgressBar| format!("[{} pos={} len={:?} fin={} el={:?} eta={:?} ps={:?}] {}", if restyled.get() { 'V' } else { 'W' }, pb.position(), pb.length(), pb.is_finished(), pb.elapsed(), pb.eta(), pb.per_sec(), indicatif::FormattedDuration(pb.elapsed()));
             let (mut ticks, mut resets) = (0usize, 0usize);
             let mut stale: Option<String> = None;
             for (i, &o) in seq.iter().enumerate() {
@@ -338,6 +341,10 @@ pub fn run(tier: Tier, shard: Shard, stats: &mut Stats) {
                     7 => pb.suspend(|| clock::advance_ms(2000)),
                     8 => pb.println("log"),
                     10 => catcher.fail_flush.store(true, std::sync::atomic::Ordering::Relaxed),
+                    11 => {
+                        pb.set_style(ProgressStyle::with_template("[{k}] {elapsed_precise}").unwrap().with_key("k", Probe { log: probe.log.clone(), second: true }));
+                        restyled.set(true);
+                    }
                     _ => pb.set_draw_target(indicatif::ProgressDrawTarget::term_like(Box::new(catcher.clone()))),
                 }
                 // the frame this operation painted (if any): last line payload before the right-edge filler
@@ -346,9 +353,9 @@ pub fn run(tier: Tier, shard: Shard, stats: &mut Stats) {
                     let line = &painted[painted.len() - 2];
                     let want = want_now(&pb);
                     // one frame = one bar line: a second one is a leftover of an earlier frame
-                    if painted.iter().filter(|l| l.starts_with("[W")).count() > 1 {
-                        stale = Some(format!("operation #{i} ({}) painted {} bar lines in one frame: {:?}", names[o as usize], painted.iter().filter(|l| l.starts_with("[W")).count(), painted));
-                    } else if line.starts_with("[W") && *line != want {
+                    if painted.iter().filter(|l| l.starts_with("[W") || l.starts_with("[V")).count() > 1 {
+                        stale = Some(format!("operation #{i} ({}) painted {} bar lines in one frame: {:?}", names[o as usize], painted.iter().filter(|l| l.starts_with("[W") || l.starts_with("[V")).count(), painted));
+                    } else if (line.starts_with("[W") || line.starts_with("[V")) && *line != want {
                         stale = Some(format!("operation #{i} ({}) painted {:?}, the bar's state at that instant is {:?}", names[o as usize], line, want));
                     }
                 }
